@@ -934,6 +934,17 @@ def corpus_specs():
                                                     'children': []}])))
         out.append(('corpus:unvalidated-label', R([{'src': 'helper:GaugeMetricFamily', 'name': 'g', 'help': 'h', 'labels': ['__x'],
                                                     'adds': [{'lv': ['v'], 'value': ONE, 'ts': None}]}])))
+        # rules the parser enforces beyond C15, on content expressible through the public API
+        Z, O = {'i': 0}, {'i': 1}
+        out.append(('corpus:parser-only', R([{'src': 'helper:GaugeHistogramMetricFamily', 'name': 'gh', 'help': 'h', 'labels': [], 'direct': True,
+                                              'adds': [{'lv': [], 'buckets': [['1.0', Z], ['+Inf', O]], 'gsum': fb(-0.5), 'ts': None}]}])))
+        out.append(('corpus:parser-only', R([{'src': 'helper:HistogramMetricFamily', 'name': 'hh', 'help': 'h', 'labels': [], 'direct': True,
+                                              'adds': [{'lv': [], 'buckets': [['1.0', Z], ['inf', O]], 'sum': fb(0.5), 'ts': None}]}])))
+        out.append(('corpus:parser-only', R([{'src': 'helper:HistogramMetricFamily', 'name': 'hn', 'help': 'h', 'labels': [], 'direct': True,
+                                              'adds': [{'lv': [], 'buckets': [['-1.0', Z], ['+Inf', O]], 'sum': fb(0.5), 'ts': None}]}])))
+        out.append(('corpus:parser-only', R([raw('hs', 'histogram', [smp('hs_bucket', [('le', '+Inf')], value=O), smp('hs_sum', value=ONE)])])))
+        out.append(('corpus:parser-only', R([raw('gr', 'gauge', [smp('gr', [('a', '1')]), smp('gr', [('a', '2')]), smp('gr', [('a', '1')], value=fb(2.0))])])))
+        out.append(('corpus:parser-only', R([raw('du', 'gauge', [smp('du', [('a', '1')]), smp('du', [('a', '1')], value=fb(2.0))])])))
         # F17
         out.append(('corpus:f17', R([{'src': 'class:Histogram', 'name': 'h', 'help': 'h', 'labelnames': [], 'unit': '',
                                       'buckets': [fb(-1.0), fb(0.0), fb(1.0)], 'children': [{'lv': [], 'ops': [{'v': fb(0.5)}]}]}])))
